@@ -32,7 +32,7 @@ for d in sorted(os.listdir(os.path.join(V, "seeded"))):
         for i, f in enumerate(new[:2]):
             data = open(os.path.join(V, "replays", f)).read()
             # cases of the flow model (31 ...) and of the two-writer model (13 ...) cannot be replayed through the harness
-            if len(data) < 600000 and not data.startswith(("13 ", "31 ")):
+            if len(data) < 600000 and not data.startswith(("13 ", "31 ", "18 7 ")):
                 open(os.path.join(V, "corpus", prop, "seed_%s_%d.cases" % (d.split("-", 1)[1], i)), "w").write(data)
     rows.append((d, "caught" if viol else "MISSED", "%d violation lines, %d without failing input, exit %d" % (len(viol), nf, p.returncode)))
     print(rows[-1], flush=True)
